@@ -220,6 +220,11 @@ Error BaseAssembler::embed_const_pool(const Label& label, const ConstPool& pool)
     return report_error(make_error(Error::kInvalidLabel));
   }
 
+  // Must be checked before the alignment is emitted - bind() would fail after the padding has been appended.
+  if (ASMJIT_UNLIKELY(_code->is_label_bound(label))) {
+    return report_error(make_error(Error::kLabelAlreadyBound));
+  }
+
   ASMJIT_PROPAGATE(align(AlignMode::kData, uint32_t(pool.alignment())));
   ASMJIT_PROPAGATE(bind(label));
 
